@@ -8,14 +8,18 @@ import (
 	"bytes"
 	"crypto/rand"
 	"fmt"
+	"image"
+	"image/jpeg"
 	"io"
 	"sort"
 	"sync"
 	"time"
 
 	"golang.org/x/text/language"
+	"seehuhn.de/go/membudget"
 	"seehuhn.de/go/pdf"
 	"seehuhn.de/go/xmp"
+	"verif/sim/forge"
 	"verif/sim/gen"
 	"verif/sim/simdisk"
 	"verif/sim/simio"
@@ -33,6 +37,7 @@ type Restrict struct {
 	NoWriterGet bool
 	NoMetadata  bool
 	SmallValues bool // keep objects small (used by enumeration checks)
+	NoImages    bool // no pre-encoded DCT / JBIG2 / CCITTFax streams
 }
 
 // Config is the drawn configuration.
@@ -63,6 +68,7 @@ type Expect struct {
 	IsStream bool
 	Dict     pdf.Dict // stream dictionary as handed in (snapshot)
 	Body     []byte   // decoded stream bytes
+	Raw      []byte   // pre-encoded image streams: the body as handed to the Writer
 	How      string   // which operation wrote it
 	Filters  []string
 }
@@ -439,10 +445,103 @@ func (x *exec) maxBody() int {
 	return 20000
 }
 
+// imageStream draws a pre-encoded image stream: the body is a JPEG, an embedded
+// JBIG2 page or Group 4 fax data, the dictionary carries the matching /Filter.
+// decoded is what the library's decoder makes of the body in a fault-free
+// pass at generation time (the Writer does not touch such bodies; what must
+// round-trip is the raw data, and decoding it again must give the same bytes).
+func imageStream(t *tape.Tape, lbl string, v pdf.Version) (name pdf.Name, parms pdf.Dict, raw, decoded []byte, ok bool) {
+	switch t.Draw(lbl+".kind", 3) {
+	case 0:
+		w, h := 1+t.Draw(lbl+".w", 48), 1+t.Draw(lbl+".h", 48)
+		st := t.Sub(lbl + ".pix")
+		var img image.Image
+		if t.Bool(lbl+".gray", 1, 2) {
+			g := image.NewGray(image.Rect(0, 0, w, h))
+			for i := range g.Pix {
+				g.Pix[i] = byte(st.Intn(256))
+			}
+			img = g
+		} else {
+			c := image.NewRGBA(image.Rect(0, 0, w, h))
+			for i := range c.Pix {
+				c.Pix[i] = byte(st.Intn(256))
+			}
+			img = c
+		}
+		var buf bytes.Buffer
+		jpeg.Encode(&buf, img, &jpeg.Options{Quality: 20 + t.Draw(lbl+".q", 80)})
+		name, raw = "DCTDecode", buf.Bytes()
+	case 1:
+		raw, _, _ = forge.ValidJBIG2(t, lbl+".jb")
+		name = "JBIG2Decode"
+	default:
+		cols := 8 * (1 + t.Draw(lbl+".cols", 12))
+		rows := 1 + t.Draw(lbl+".rows", 24)
+		f := pdf.FilterCCITTFax{K: -1, Columns: cols}
+		var buf nopCloserBuf
+		enc, err := f.Encode(v, &buf)
+		if err != nil {
+			return "", nil, nil, nil, false
+		}
+		data := make([]byte, cols/8*rows)
+		st := t.Sub(lbl + ".pix")
+		for i := range data {
+			if st.Intn(3) == 0 {
+				data[i] = byte(st.Intn(256))
+			}
+		}
+		enc.Write(data)
+		enc.Close()
+		raw = buf.Bytes()
+		var err2 error
+		name, parms, err2 = f.Info(v)
+		if err2 != nil {
+			return "", nil, nil, nil, false
+		}
+	}
+	f, err := pdf.MakeFilter(name, parms)
+	if err != nil {
+		return "", nil, nil, nil, false
+	}
+	rc, err := f.Decode(v, bytes.NewReader(raw), membudget.New(64<<20))
+	if err != nil {
+		return "", nil, nil, nil, false
+	}
+	decoded, err = io.ReadAll(rc)
+	rc.Close()
+	if err != nil {
+		return "", nil, nil, nil, false
+	}
+	return name, parms, raw, decoded, true
+}
+
+type nopCloserBuf struct{ bytes.Buffer }
+
+func (*nopCloserBuf) Close() error { return nil }
+
 func (x *exec) opPutStream() {
 	lbl := x.label("putstm")
 	ref := x.takeRef(lbl)
 	dict := x.streamDict(lbl)
+	if !x.r.SafeText && !x.r.NoImages && x.t.Bool(lbl+".image", 1, 5) {
+		if name, parms, raw, decoded, ok := imageStream(x.t, lbl+".img", x.cfg.Version); ok {
+			dict["Filter"] = name
+			if parms != nil {
+				dict["DecodeParms"] = parms
+			}
+			snapDict := gen.Clone(dict).(pdf.Dict)
+			stm := pdf.NewStream(dict, raw)
+			x.res.args = append(x.res.args, argCheck{dict, snapDict, "streamdict"})
+			x.res.OpNames = append(x.res.OpNames, fmt.Sprintf("putimage %d %s len=%d", ref.Number(), name, len(raw)))
+			if x.fail("Put(image stream)", x.w.Put(ref, stm)) {
+				return
+			}
+			x.res.Probes["pre-encoded image stream ("+string(name)+")"]++
+			x.record(ref, &Expect{IsStream: true, Dict: snapDict, Body: decoded, Raw: raw, How: "putimage", Filters: []string{string(name)}})
+			return
+		}
+	}
 	body := gen.Body(x.t, lbl+".body", x.maxBody(), x.r.SafeText)
 	snapDict := gen.Clone(dict).(pdf.Dict)
 	stm := pdf.NewStream(dict, body)
